@@ -33,7 +33,7 @@ NSHARD = {"quick": 16, "thorough": 48}
 
 
 def bounds(tier):
-    return {"max_records_per_file": 4 if tier == "quick" else 5, "alphabet": 15, "graphs": 2}
+    return {"max_records_per_file": 4 if tier == "quick" else 5, "alphabet": 16, "graphs": 2}
 
 
 def alphabet(g, c1, c2, untagged):
@@ -62,6 +62,7 @@ def alphabet(g, c1, c2, untagged):
     if untagged:
         recs.append(("H", ">u1", 2, 4))
         recs.append(("N", ">n70k", 0, 2))  # NO = 70001: does not fit 16 bits
+        recs.append(("P", f">u1>{s1}", 1, 8))  # starts in the untagged node and continues into a tagged one: still anchored on u1
     else:
         recs.append(("H", f">{sc2[-1]}", 1, 2))
     return recs
@@ -131,7 +132,7 @@ def judge_file(res, scratch, gname, g, gfa_path, seq, alpha):
     want_names = [recs[i].qname for i in want]
     if len(recs) >= 2 and (want != list(range(len(recs))) or len({sc.order_tuple(k) for k in keys}) < len(keys)):
         res.nt(fw.h64([gname, seq]))
-    case = {"graph": gname, "gfa": g.text(), "records": [r.line() for r in recs]}
+    case = {"graph": gname, "gfa": open(gfa_path).read(), "records": [r.line() for r in recs]}  # the file as written (line order matters)
     if HISTORY.get("prev") and HISTORY["prev"]["gfa"] != case["gfa"]:
         case["preceded_by"] = HISTORY["prev"]
     verdict(res, out, gname, recs, keys, want_names, case)
@@ -168,7 +169,8 @@ def run_shard(spec, tier, scratch):
     maxn = bounds(tier)["max_records_per_file"]
     for gname, g, alpha in gs:
         gfa_path = os.path.join(scratch, gname + ".gfa")
-        fw.write_text(gfa_path, g.text())
+        # the hand-tagged graph is written with its L lines first and its S lines in reverse order
+        fw.write_text(gfa_path, g.text() if gname == "pipeline" else "".join(l.line() + "\n" for l in g.links) + "".join(x.line() + "\n" for x in reversed(list(g.segs.values()))))
         for k in range(1, maxn + 1):
             for seq in itertools.product(range(len(alpha)), repeat=k):
                 n += 1
@@ -177,7 +179,7 @@ def run_shard(spec, tier, scratch):
                 judge_file(res, scratch, gname, g, gfa_path, list(seq), alpha)
         # what the next graph's sort calls are preceded by in this process
         name0, path0, ps0, pe0 = alpha[0]
-        HISTORY["prev"] = {"gfa": g.text(), "records": [sc.rec_on(g, f"{a[0]}.0", a[1], a[2], a[3]).line() for a in alpha]}
+        HISTORY["prev"] = {"gfa": open(gfa_path).read(), "records": [sc.rec_on(g, f"{a[0]}.0", a[1], a[2], a[3]).line() for a in alpha]}
         if spec["shard"] == 0:
             res.sample({"graph": gname, "alphabet": [{"name": a[0], "path": a[1], "start": a[2], "end": a[3], "key": sc.sort_key(g, sc.rec_on(g, a[0], a[1], a[2], a[3]))} for a in alpha]})
     return res
